@@ -70,6 +70,9 @@ type Options struct {
 	OASJSON bool
 	NoBuild bool
 	Harness bool // link the harness binary out of the healthy units
+	// MockShim redirects math/rand and crypto/rand in the emitted *_http_mock.pb.go to verif/mc/vrand so that
+	// the explorer owns the mock's random choices (the unmodified file is what C13/C20 compile).
+	MockShim bool
 	Tag     string
 }
 
@@ -98,7 +101,7 @@ func mcHash() string {
 	mcHashOnce.Do(func() {
 		h := sha256.New()
 		var files []string
-		for _, d := range []string{"rt", "model", "ws", "stubs", "explore"} {
+		for _, d := range []string{"rt", "model", "ws", "stubs", "explore", "vrand"} {
 			filepath.WalkDir(filepath.Join(mcDir(), d), func(p string, e fs.DirEntry, err error) error {
 				if err == nil && !e.IsDir() && (strings.HasSuffix(p, ".go") || strings.HasSuffix(p, ".mod")) {
 					files = append(files, p)
@@ -270,10 +273,20 @@ func (w *Workspace) generate(u *Unit, gengo string, o Options) error {
 			u.GenErr[p] = r.Err()
 			continue
 		}
-		for n, c := range r.Files() {
+		files := r.Files()
+		if o.MockShim {
+			for n, c := range files {
+				if strings.HasSuffix(n, "_http_mock.pb.go") {
+					c = strings.Replace(c, `"math/rand"`, `rand "verif/mc/vrand"`, 1)
+					c = strings.Replace(c, `cryptorand "crypto/rand"`, `cryptorand "verif/mc/vrand/crand"`, 1)
+					files[n] = c
+				}
+			}
+		}
+		for n, c := range files {
 			u.GenFiles[strings.TrimPrefix(n, "verifws/")] = c
 		}
-		if err := w.writeOut(r.Files()); err != nil {
+		if err := w.writeOut(files); err != nil {
 			return err
 		}
 	}
